@@ -210,7 +210,13 @@ fn do_act(w: &mut World, net: &mut HonestNet, a: &Act, hook: &mut ForkWatch) -> 
             }
             let stored = w.c().storage.get_last_n_headers();
             let main_tip = w.chains[net.main].tip();
-            let cands: Vec<u64> = stored.iter().map(|(n, _)| *n).filter(|n| *n >= 1 && *n < main_tip).collect();
+            // a finalized check point is at least one interval below the tip of the peer that served it (add_check_points drops the
+            // last one of a reply); `cp_interval > last_n` keeps forks among the remembered headers above it only while the client's
+            // stored tip is the chain's tip. After a crash + restart the stored headers lag, so the depth is bounded against the
+            // chain's tip as well (a reorg deeper than the check point interval - 2000 blocks on mainnet - is outside what the
+            // client supports: its finalized check points are final; see DESIGN 10.9)
+            let cpi = w.ccfg.cp_interval;
+            let cands: Vec<u64> = stored.iter().map(|(n, _)| *n).filter(|n| *n >= 1 && *n < main_tip && main_tip - *n <= cpi).collect();
             // (forks below the filtered height - the rollback then has index entries to delete - were left out while the undetected
             // shallow reorg, KF25, was open; since fix 991948d they are part of the histories)
             if cands.is_empty() {
